@@ -116,6 +116,12 @@ func Check_Modes() {
 
 	// strict
 	cpS := newCP(collector.DecodingModeStrict)
+	if sx.Choose("olderTemplate", 2) == 1 {
+		// an older, valid template for the same id must not survive the rejected one
+		_, errO := cpS.VerifDecodePacket(templatePkt([]pos{{known: true, kind: common.KU8}}), "1.2.3.4:5")
+		sx.Assert(errO == nil, "older-template")
+		sx.Reach("older-template")
+	}
 	_, errT := cpS.VerifDecodePacket(tpl, "1.2.3.4:5")
 	_, errD := cpS.VerifDecodePacket(data, "1.2.3.4:5")
 	if anyUnknown {
